@@ -601,4 +601,6 @@ def run(run: Run):
     run.floor('C16.R4', 3)
     from .common import shared_mechanisms as _shared
     _shared(run, 'C16', 8, ['stored-values', 'literals', 'overrides'])
+    from .common import shared_mechanisms as _shared_f
+    _shared_f(run, 'C16', 11, ['formulas'])
     return INFO
